@@ -13,6 +13,7 @@
    run by tools/c10.py, which injects one I/O error at EVERY storage operation (reads and length queries
    included, during open too) of every generated history: the call must answer an error — never success, a panic
    or a hang — and reopening must show the before-or-after state with everything earlier intact. *)
+From HC Require Import HonestCrash1 HonestCrash2 HonestFault.
 From HC Require FaultReplicaEx.
 From HC Require Import FaultReplica.
 From HC Require SrcOrder OrderTie OrderTieResult OrderTieStorage.
@@ -366,6 +367,112 @@ Theorem C10_failed_create_recovers :
                  FInv cr c2 d2 [] (fun _ : N => false) /\ c_keypair c2 = kp')).
 Proof. exact failed_create_recovers. Qed.
 
+Theorem C10_failed_honest_round_recovers :
+  forall cr : crypto,
+         OplogFacts.crc_ok cr ->
+         (forall x : bytes, Datatypes.length (cr_hash cr x) = 32%nat) ->
+         (forall x : bytes, all_zero (cr_hash cr x) = false) ->
+         (forall x : bytes, bytes_ok (cr_hash cr x) = true) ->
+         forall bs : list bytes,
+         SoundCoreLib.writer_fits bs ->
+         forall (f : option bool) (cw : core) (dw : disk) (bw : list bytes) (sg : bytes) 
+           (jw : list sop) (evw : list event) (c : core) (d : disk) (j : list sop) 
+           (ev : list event) (H : N -> bool) (rq : AcceptAll.request) (k : nat),
+         let w := N.of_nat (Datatypes.length bw) in
+         let pk := kp_public (c_keypair c) in
+         AcceptAllCore3.writer_at cr bs cw dw bw pk sg ->
+         AcceptAllCore3.RCInv cr bs c d H ->
+         t_length (c_tree c) <= w ->
+         AcceptAll.wf_request bs (c_tree c) (d_tree d) w rq ->
+         (forall vp : vproof,
+          create_valueless_proof (c_tree cw) (d_tree dw) (AcceptAll.rq_block rq) (AcceptAll.rq_hash rq)
+            (AcceptAll.rq_seek rq) (AcceptAll.rq_upgrade rq) = Ok vp ->
+          AcceptAllCore3.frame_guard cr c d (Replicate.vp_to_proof vp (AcceptAll.rq_value bs rq))) ->
+         let H' := HonestApply3.held_rq H rq in
+         let r' := match AcceptAll.rq_upgrade rq with
+                   | Some _ => w
+                   | None => t_length (c_tree c)
+                   end in
+         exists (pf : proof) (c' : core) (w' : world) (ops : list sop),
+           core_create_proof (AcceptAll.rq_block rq) (AcceptAll.rq_hash rq) (AcceptAll.rq_seek rq)
+             (AcceptAll.rq_upgrade rq) cw {| w_disk := dw; w_journal := jw; w_events := evw |} =
+           (cw, {| w_disk := dw; w_journal := jw; w_events := evw |}, Ok (Some pf)) /\
+           core_apply_proof cr f pf c {| w_disk := d; w_journal := j; w_events := ev |} = (c', w', Ok true) /\
+           w_journal w' = rev ops ++ j /\
+           (rq_commit_point rq < Datatypes.length ops)%nat /\
+           AcceptAllCore3.RCInv cr bs c' (w_disk w') H' /\
+           t_length (c_tree c') = r' /\
+           c_keypair c' = c_keypair c /\
+           ((Datatypes.length ops <= k)%nat ->
+            core_apply_proof_E cr (emit_lim (Datatypes.length j + k)) f pf c
+              {| w_disk := d; w_journal := j; w_events := ev |} = (c', w', Ok true)) /\
+           ((k < Datatypes.length ops)%nat ->
+            exists (ck : core) (wk : world),
+              core_apply_proof_E cr (emit_lim (Datatypes.length j + k)) f pf c
+                {| w_disk := d; w_journal := j; w_events := ev |} = (ck, wk, Err IOErr) /\
+              w_journal wk = rev (firstn k ops) ++ j /\
+              apply_sops d (firstn k ops) = Some (w_disk wk) /\
+              w_events wk = ev /\
+              (exists (c2 : core) (d2 : disk) (rops : list sop),
+                 core_open cr None true (w_disk wk) = (d2, rops, Ok c2) /\
+                 c_keypair c2 = c_keypair c /\
+                 (if (k <=? rq_commit_point rq)%nat
+                  then
+                   AcceptAllCore3.RCInv cr bs c2 d2 H /\
+                   ReplicaDisk1.obs_replica bs c2 d2 H (t_length (c_tree c)) /\
+                   t_length (c_tree c2) = t_length (c_tree c)
+                  else
+                   AcceptAllCore3.RCInv cr bs c2 d2 H' /\
+                   ReplicaDisk1.obs_replica bs c2 d2 H' r' /\ t_length (c_tree c2) = r'))).
+Proof. exact failed_honest_round. Qed.
+
+Theorem C10_fault_during_recovery_of_any_honest_round :
+  forall cr : crypto,
+         OplogFacts.crc_ok cr ->
+         (forall x : bytes, Datatypes.length (cr_hash cr x) = 32%nat) ->
+         (forall x : bytes, all_zero (cr_hash cr x) = false) ->
+         (forall x : bytes, bytes_ok (cr_hash cr x) = true) ->
+         forall bs : list bytes,
+         SoundCoreLib.writer_fits bs ->
+         forall (pk : bytes) (d : disk) (H : N -> bool) (r : N) (k : nat),
+         RCDisk cr bs pk d H r ->
+         exists (c' : core) (d' : disk) (ops : list sop),
+           core_open cr None true d = (d', ops, Ok c') /\
+           AcceptAllCore3.RCInv cr bs c' d' H /\
+           ReplicaDisk1.obs_replica bs c' d' H r /\
+           t_length (c_tree c') = r /\
+           c_keypair c' = {| kp_public := pk; kp_secret := None |} /\
+           ((Datatypes.length ops <= k)%nat /\ core_open_F cr k None true d = (d', ops, Ok c') \/
+            (k < Datatypes.length ops)%nat /\ core_open_F cr k None true d = (d, [], Err IOErr)).
+Proof. exact failed_open_recovers_RC. Qed.
+
+Theorem C10_honest_histories_with_faults :
+  forall cr : crypto,
+         OplogFacts.crc_ok cr ->
+         (forall x : bytes, Datatypes.length (cr_hash cr x) = 32%nat) ->
+         (forall x : bytes, all_zero (cr_hash cr x) = false) ->
+         (forall x : bytes, bytes_ok (cr_hash cr x) = true) ->
+         forall bs : list bytes,
+         SoundCoreLib.writer_fits bs ->
+         forall (es : list fevent) (c : core) (d : disk) (j : list sop) (ev : list event) (H : N -> bool),
+         AcceptAllCore3.RCInv cr bs c d H ->
+         fhist cr bs es c {| w_disk := d; w_journal := j; w_events := ev |} ->
+         exists (c' : core) (w' : world),
+           frun cr es c {| w_disk := d; w_journal := j; w_events := ev |} = Some (c', w') /\
+           AcceptAllCore3.RCInv cr bs c' (w_disk w') (fheld_all H es) /\
+           c_keypair c' = c_keypair c /\
+           t_length (c_tree c') = flen_all (t_length (c_tree c)) es /\
+           t_byte_length (c_tree c') = TreeRef.prefix_size bs (t_length (c_tree c')) /\
+           t_length (c_tree c) <= t_length (c_tree c') /\
+           (forall i : N, fcommitted es i -> core_has c' i = true) /\
+           (forall i : N, H i = true -> core_has c' i = true) /\
+           (forall i : N, core_has c' i = fheld_all H es i) /\
+           (forall (i : N) (j2 : list sop) (ev2 : list event),
+            core_has c' i = true ->
+            core_get i c' {| w_disk := w_disk w'; w_journal := j2; w_events := ev2 |} =
+            (c', {| w_disk := w_disk w'; w_journal := j2; w_events := ev2 |}, Ok (Some (TreeRef.blk bs i)))).
+Proof. exact honest_fault_histories. Qed.
+
 Print Assumptions C10_failed_flush_is_a_cut.
 Print Assumptions C10_fault_states_are_crash_cuts.
 Print Assumptions C10_journal_prefixes_apply.
@@ -394,3 +501,6 @@ Print Assumptions FaultReplicaEx.toy_fault_in_creation.
 Print Assumptions FaultReplicaEx.toy_fault_in_repairing_open.
 Print Assumptions FaultReplicaEx.toy_failed_open_theorem_applies.
 Print Assumptions C10_source_step_order.
+Print Assumptions C10_failed_honest_round_recovers.
+Print Assumptions C10_fault_during_recovery_of_any_honest_round.
+Print Assumptions C10_honest_histories_with_faults.
